@@ -160,12 +160,14 @@ class GeometricConstraintsRowWise(GeometricConstraints):
         self.type = DesignGeomType.ROWWISE
 
     def to_input(self) -> dict:
+        # rotations are held in radians; rounding removes the noise of the degree -> radian -> degree conversion
+        # (30 would otherwise be written as 29.999999999999996) so that a written file reads back to itself
         d = {
             'min_spacing': self.min_spacing,
             'max_spacing': self.max_spacing,
             'spacing_step': self.spacing_step,
-            'min_rotation': self.min_rotation * RAD_TO_DEG,
-            'max_rotation': self.max_rotation * RAD_TO_DEG,
+            'min_rotation': round(self.min_rotation * RAD_TO_DEG, 10),
+            'max_rotation': round(self.max_rotation * RAD_TO_DEG, 10),
             'rotate_step': self.rotate_step,
             'property_boundary': self.property_boundary,
             'no_go_boundaries': self.no_go_boundaries,
